@@ -2,6 +2,7 @@ mod conv;
 mod prog;
 mod props;
 mod subject;
+mod textcmp;
 
 use speclib::report::{install_panic_hook, Ctx, Tier};
 
